@@ -19,7 +19,7 @@ TECHNIQUE = ("runtime monitoring: call-log exactly-once/never-else monitor + per
 RULE = ("seeded case sets (1-4 case args, 1-8 distinct cases sharing coordinates, dict/tuple/single-dict "
         "spelling, keys in varying order; argument values incl. bool/numpy scalars/odd strings, and one argument mixing numbers and strings whose union cannot be sorted) given as list / tuple / iterator / generator / zip; overlap requests in dict and positional spelling) x optional sub-grids x result kinds (int/float/bool/str/complex/tuple/"
         "nested list/ndarray/mixed/dict/Dataset/DataArray) x shuffle x flat x split x entry point "
-        "(combo_runner, case_runner); distinct by (case-set shape, union sizes, sub-grid shape, kind, options), "
+        "(combo_runner, case_runner, Runner.run_cases and Harvester.harvest_cases with the argument names of positional cases given to the Runner, sub-grids as mappings); distinct by (case-set shape, union sizes, sub-grid shape, kind, options), "
         "non-trivial when at least one slot of the grid is un-requested or >= 2 settings run")
 ASSUMPTIONS = [
     "a 'missing' slot is judged by: every leaf is NaN or None and np.shape equals the real result's (the spelling NaN vs None is not judged)",
@@ -33,6 +33,7 @@ MIN_REACH = {
     "rejections_checked": {"quick": 20, "thorough": 150},
     "case_sets_given_as_one_shot_iterators": {"quick": 100, "thorough": 2000},
     "rejections_checked_with_positional_cases": {"quick": 5, "thorough": 40},
+    "case_sets_run_through_a_runner_or_harvester": {"quick": 80, "thorough": 1500},
 }
 TIME_BUDGET = {"quick": 300, "thorough": 3000}
 
@@ -49,11 +50,20 @@ def cases(ctx):
         if rng.random() < 0.45:
             free = [a for a in gens.ARG_POOL if a not in names]
             sub = gens.gen_combos(rng, nargs=(1, 2), nvals=(1, 3), names=rng.sample(free, 2))
-        entry = rng.choice(["combo_runner", "combo_runner", "case_runner"])
+        entry = rng.choice(["combo_runner", "combo_runner", "case_runner", "case_runner", "runner_cases", "harvester_cases"])
         split = rng.random() < 0.25
         flat = (entry == "case_runner") or rng.random() < 0.2
         kind = rng.choice(SPLIT_KINDS if split else KINDS)
         spelling = rng.choice(["dict", "dict", "tuple"]) if entry == "case_runner" else "dict"
+        if entry in ("runner_cases", "harvester_cases") and any(
+                len({isinstance(c[a], str) for c in cs}) > 1 or any(isinstance(c[a], tuple) for c in cs) for a in names):
+            flat = True
+            entry = "case_runner"       # (labels mixing numbers and text, or tuples, cannot label a Dataset axis as they are)
+        if entry in ("runner_cases", "harvester_cases"):
+            # Runner.run_cases / Harvester.harvest_cases: the argument names of positional cases are those the Runner was
+            # built with (fn_args=), in that order; the result is a Dataset
+            split, flat, kind = False, False, rng.choice(["int", "float"])
+            spelling = rng.choice(["dict", "tuple", "tuple"])
         c = {
             "entry": entry, "names": names, "cases": cs, "sub": sub, "kind": kind,
             "split": split, "flat": flat, "spelling": spelling,
@@ -129,7 +139,21 @@ def run_case(ctx, case):
     result, err = None, None
     try:
         with quiet():
-            if case["entry"] == "combo_runner":
+            if case["entry"] in ("runner_cases", "harvester_cases"):
+                rn = xyzpy.Runner(fn, var_names="out", fn_args=fn_args, constants=constants or None)
+                kw = {"verbosity": 0}
+                if case["shuffle"]:
+                    kw["shuffle"] = case["shuffle"]
+                if combos_arg is not None:
+                    kw["combos"] = combos_arg
+                if case["entry"] == "runner_cases":
+                    result = rn.run_cases(spelled_cases, **kw)
+                else:
+                    hv = xyzpy.Harvester(rn, data_name=None)
+                    hv.harvest_cases(spelled_cases, sync=False, **kw)
+                    result = hv.last_ds
+                ctx.count("case_sets_run_through_a_runner_or_harvester")
+            elif case["entry"] == "combo_runner":
                 result = xyzpy.combo_runner(fn, combos_arg, cases=spelled_cases, flat=case["flat"], **opts)
             else:
                 result = xyzpy.case_runner(fn, fn_args, spelled_cases, combos=combos_arg, **opts)
@@ -242,7 +266,35 @@ def run_case(ctx, case):
             ctx.count("missing_slots_checked", nmiss)
         return bad[0] if bad else None
 
-    if case["split"]:
+    if case["entry"] in ("runner_cases", "harvester_cases"):
+        import numpy as np
+        dsb = []
+        try:
+            wanted = {tuple(probe._cv(c[a]) for a in names) for c in cs}
+            axes = [(a, result[a].values.tolist()) for a in names] + [(a, list(v)) for a, v in sub]
+            for a, vals in axes:
+                want_u = refmodel.plain_union(c[a] for c in cs) if a in names else dict(sub)[a]
+                if sorted(map(repr, map(probe._cv, vals))) != sorted(map(repr, map(probe._cv, want_u))):
+                    dsb.append("coordinate %s holds %s, requested values %s" % (a, vals, want_u))
+            nmiss = 0
+            for pt in ([] if dsb else refmodel.grid_points(axes)):
+                got = result["out"].sel({a: pt[a] for a, _ in axes}).values
+                if tuple(probe._cv(pt[a]) for a in names) in wanted:
+                    d = refmodel.deep_eq(got.item(), leaf(pt))
+                    if d:
+                        dsb.append("requested location %s: %s" % (pt, d))
+                        break
+                else:
+                    nmiss += 1
+                    if not (got != got):
+                        dsb.append("un-requested location %s holds %r" % (pt, got))
+                        break
+            ctx.count("missing_slots_checked", nmiss)
+        except Exception as e:
+            dsb.append("judging the dataset raised %r" % (e,))
+        for d in dsb[:1]:
+            ctx.violation(case, d, dict(sig0, oracle="placement"))
+    elif case["split"]:
         if not isinstance(result, tuple) or len(result) != nout:
             ctx.violation(case, "split result is not a %d-tuple: %s" % (nout, refmodel._short(result)),
                           dict(sig0, oracle="placement"))
